@@ -204,8 +204,8 @@ def check(ctx):
         check_normalised_access(ctx, m, c)
     ctx.need(n_guard >= 10, "fewer than 10 comparisons of __eq__ read fields of the other value (%d)" % n_guard)
     ctx.need(n_order >= 8, "fewer than 8 printed constructor arguments could be traced to their parameter (%d)" % n_order)
-    check_one_box(ctx, m)
-    check_total_order(ctx, m)
+    ctx.attempt(check_one_box, ctx, m)
+    ctx.attempt(check_total_order, ctx, m)
     ns = check_returns_str(ctx, m)
     ctx.need(ns >= 25, "fewer than 25 __repr__ / __str__ methods scanned (%d)" % ns)
     ctx.rule("R03.6", "no method other than the constructor changes a field in place (directly or through an alias)")
